@@ -9,7 +9,7 @@ from .. import core, gen, hist, model
 from ..session import Outcome
 from . import PropBase, steps_with_ids
 
-FAULTS = ("reorder", "clear", "clear_typing", "shrink", "stack")
+FAULTS = ("reorder", "clear", "clear_typing", "shrink", "stack", "exhaust_scan")
 
 WORLD = {"modules": [{"name": "vw0", "future": False, "decls": [
     {"d": "dataclass", "n": "VwP", "fields": [{"n": "a", "t": {"k": "int"}}, {"n": "b", "t": {"k": "str"}, "default": "x"}], "flags": {}},
@@ -106,6 +106,12 @@ class C08(PropBase):
                 else:
                     x = _junk(rng)
                 step.update(op="unmarshal", x=x)
+            if "exhaust_scan" in sw and rng.random() < 0.35:
+                # first from every stack depth at which the call cannot complete: with next to no stack left
+                # the union dies of RecursionError or answers as at any depth - a later, shallower member
+                # must not answer in place of the first acceptor
+                step["scan"] = True
+                step.pop("depth", None)
             steps.append(step)
         return {"prop": self.ID, "seed": seed, "tier": tier, "world": copy.deepcopy(WORLD), "env": env, "steps": steps_with_ids(steps), "meta": {"swarm": sw}}
 
